@@ -1,4 +1,290 @@
+//! C09 - every descriptor received is handed over exactly once or closed; none leak.
+//!
+//! Oracle: census of /proc/self/fd (number + identity) before a scenario and after every
+//! endpoint and every application-held file was dropped: the two must be equal. Files delivered
+//! to the handler by value are checked to still refer to the object they were delivered with
+//! (a library-side double close would invalidate or re-target the number) before the
+//! "application" drops them. Descriptors merely lent to the library must stay open and unchanged.
+
+use crate::c01::{self, make_reply, FeCfg};
+use crate::fuzz;
+use crate::ops::{self, FeOp, Lent, ReplyKind};
+use crate::rec::{FeOut, RecFrontend};
+use crate::util;
 use crate::Cfg;
-pub fn run(_cfg: &Cfg) {
-    common::report::inconclusive("not implemented");
+use common::spec::{self, gpu, F_REPLY, F_VERSION1};
+use common::sys::{self, Ident};
+use common::{jo, report, Rng, J};
+use std::collections::BTreeMap;
+use std::os::unix::io::{AsRawFd, RawFd};
+use std::sync::{Arc, Mutex};
+
+use vhost::vhost_user::gpu_message::*;
+use vhost::vhost_user::{Backend, FrontendReqHandler, GpuBackend};
+
+type Census = BTreeMap<RawFd, (Ident, String)>;
+
+fn diff(before: &Census, after: &Census) -> (Vec<String>, Vec<String>) {
+    let leaked = after.iter().filter(|(fd, v)| before.get(fd).map(|b| &b.0) != Some(&v.0)).map(|(fd, v)| format!("{fd}->{}", v.1)).collect();
+    let lost = before.iter().filter(|(fd, v)| after.get(fd).map(|a| &a.0) != Some(&v.0)).map(|(fd, v)| format!("{fd}->{}", v.1)).collect();
+    (leaked, lost)
+}
+
+fn judge(cfg: &Cfg, scen: &str, detail: J, before: &Census, case: &str, sig_extra: &str) {
+    let after = sys::fd_census();
+    let (leaked, lost) = diff(before, &after);
+    report::eval(1);
+    report::count(&format!("{scen}.scenarios"), 1);
+    if !leaked.is_empty() {
+        report::violation(&format!("C09:{scen}:descriptor-leak{sig_extra}"), jo! {"scenario" => detail.clone(), "still_open_after_teardown" => leaked, "open_before" => before.len(), "open_after" => after.len()}, cfg.replay(case));
+    }
+    if !lost.is_empty() {
+        report::violation(&format!("C09:{scen}:foreign-descriptor-closed{sig_extra}"), jo! {"scenario" => detail, "closed_or_retargeted" => lost}, cfg.replay(case));
+    }
+}
+
+/// Backend request server fed a hostile stream; torn down after `stop_after` requests.
+fn srv_scenario(cfg: &Cfg, rng: &mut Rng, case: &str) {
+    let alphabet = fuzz::backend_alphabet();
+    let before = sys::fd_census();
+    let mut script = util::full_script();
+    script.drop_files = rng.chance(1, 2);
+    if rng.chance(1, 4) {
+        script.fail = vec!["*"];
+    }
+    let stop_after = rng.range(0, 8);
+    let desc;
+    let mut delivered = 0usize;
+    let mut stale: Vec<String> = Vec::new();
+    {
+        let (peer, mut srv, be) = util::raw_server(script);
+        if rng.chance(3, 4) {
+            util::raw_negotiate(&peer, &mut srv, spec::VIRTIO_F_PROTOCOL_FEATURES | 1, ops::ALL_PF);
+        }
+        let stream = fuzz::gen_backend_stream(&alphabet, rng);
+        desc = stream.j();
+        report::count("descriptors_sent", stream.total_fds() as u64);
+        let sent = fuzz::send_stream(peer.as_raw_fd(), &stream);
+        for _ in 0..stop_after {
+            match util::catch(|| srv.handle_request()) {
+                Ok(Ok(())) => {}
+                Ok(Err(e)) => {
+                    let s = format!("{e:?}");
+                    if s.contains("Disconnected") || s.contains("PartialMessage") || s.contains("SocketBroken") {
+                        break;
+                    }
+                }
+                Err(_) => break,
+            }
+        }
+        // teardown at this point: drop the server first, then what the application holds
+        drop(srv);
+        let mut g = be.lock().unwrap();
+        for c in &g.log {
+            for (fd, id) in &c.fds {
+                delivered += 1;
+                // a file delivered by value is owned by the handler: while it holds it, the number
+                // must keep referring to the same object
+                if !g.script.drop_files && sys::ident(*fd) != *id {
+                    stale.push(format!("{}: fd {fd}", c.method));
+                }
+            }
+        }
+        g.held.clear();
+        g.backend = None;
+        g.gpu = None;
+        drop(g);
+        drop(sent);
+        drop(peer);
+    }
+    report::count("descriptors_delivered_to_handler", delivered as u64);
+    report::distinct(report::hash_str(&format!("srv:{desc}:{stop_after}")));
+    if !stale.is_empty() {
+        report::violation("C09:backend-server:delivered-descriptor-closed-by-library", jo! {"stream" => desc.clone(), "stale" => stale}, cfg.replay(case));
+    }
+    judge(cfg, "backend-server", jo! {"stream" => desc.clone(), "torn_down_after_requests" => stop_after}, &before, case, "");
+    report::sample(&format!("srv{stop_after}"), jo! {"endpoint" => "backend-server", "stream" => desc, "torn_down_after_requests" => stop_after, "delivered" => delivered});
+}
+
+fn fesrv_scenario(cfg: &Cfg, rng: &mut Rng, case: &str) {
+    let before = sys::fd_census();
+    let stop_after = rng.range(0, 8);
+    let desc;
+    {
+        let h = Arc::new(Mutex::new(RecFrontend::default()));
+        h.lock().unwrap().out = Some(if rng.chance(1, 2) { FeOut::Val(0) } else { FeOut::Errno(5) });
+        let mut srv = FrontendReqHandler::new(h.clone()).expect("FrontendReqHandler");
+        srv.set_reply_ack_flag(rng.chance(1, 2));
+        let peer_fd = unsafe { libc::dup(srv.get_tx_raw_fd()) };
+        let stream = fuzz::gen_frontend_req_stream(rng);
+        desc = stream.j();
+        report::count("descriptors_sent", stream.total_fds() as u64);
+        let sent = fuzz::send_stream(peer_fd, &stream);
+        for _ in 0..stop_after {
+            match util::catch(|| srv.handle_request()) {
+                Ok(Err(e)) => {
+                    let s = format!("{e:?}");
+                    if s.contains("Disconnected") || s.contains("PartialMessage") || s.contains("SocketBroken") {
+                        break;
+                    }
+                }
+                Err(_) => break,
+                _ => {}
+            }
+        }
+        drop(srv);
+        drop(sent);
+        sys::close(peer_fd);
+    }
+    report::distinct(report::hash_str(&format!("fesrv:{desc}:{stop_after}")));
+    judge(cfg, "frontend-req-server", jo! {"stream" => desc.clone(), "torn_down_after_requests" => stop_after}, &before, case, "");
+    report::sample(&format!("fesrv{stop_after}"), jo! {"endpoint" => "frontend-req-server", "stream" => desc, "torn_down_after_requests" => stop_after});
+}
+
+/// Frontend API call answered by a reply carrying 0..=40 descriptors (wanted or not).
+fn fe_scenario(cfg: &Cfg, rng: &mut Rng, case: &str) {
+    let before = sys::fd_census();
+    let what;
+    {
+        let kind = rng.below(ops::N_OP_KINDS as u64) as u32;
+        let op = loop {
+            let o = ops::rand_op(rng, 256, Some(kind));
+            if !o.locally_invalid(256) {
+                break o;
+            }
+        };
+        let k = op.reply_kind(true);
+        let c = FeCfg { need_reply: true, reply_ack: true, log_shmfd: true };
+        let (mut f, peer) = c01::setup_frontend(c, 256);
+        let rep = make_reply(&op, k, rng);
+        let nfds = match rng.below(6) {
+            0 => 0,
+            1 => 1,
+            2 => 2,
+            3 => rng.range(3, 32) as usize,
+            4 => rng.range(33, 40) as usize,
+            _ => rep.file.is_some() as usize,
+        };
+        let payload = if k == ReplyKind::Ack { spec::p_u64(rng.below(2)) } else { rep.payload.clone() };
+        let mut bytes = spec::msg(op.code(), F_VERSION1 | F_REPLY, &payload);
+        if rng.chance(1, 5) {
+            bytes[0] ^= 1; // a reply to another request
+        }
+        let files: Vec<std::fs::File> = (0..nfds).map(|_| sys::memfd("c09", 4096)).collect();
+        let fds: Vec<RawFd> = files.iter().map(|x| x.as_raw_fd()).collect();
+        what = format!("{} answered with {} descriptors", op.name(), nfds);
+        if k != ReplyKind::Nothing {
+            // descriptors at the first byte, or on a later byte of the reply
+            if rng.chance(1, 4) && bytes.len() > 13 {
+                let _ = sys::send_all(peer.as_raw_fd(), &bytes[..12], &[]);
+                let _ = sys::send_all(peer.as_raw_fd(), &bytes[12..], &fds);
+            } else {
+                let _ = sys::send_all(peer.as_raw_fd(), &bytes, &fds);
+            }
+        }
+        unsafe { libc::shutdown(peer.as_raw_fd(), libc::SHUT_WR) };
+        let mut lent = Lent::default();
+        let out = util::catch(|| op.exec(&mut f, &mut lent));
+        report::count("descriptors_sent", nfds as u64);
+        if !lent.intact() {
+            report::violation(&format!("C09:frontend:{}:lent-descriptor-closed", op.name()), jo! {"call" => op.j()}, cfg.replay(case));
+        }
+        // the application owns a returned file: it must be valid, then the application drops it
+        if let Ok(o) = out {
+            if let Some(file) = o.file {
+                if sys::ident(file.as_raw_fd()).is_none() {
+                    report::violation(&format!("C09:frontend:{}:returned-file-invalid", op.name()), jo! {"call" => op.j()}, cfg.replay(case));
+                }
+                report::count("descriptors_delivered_to_caller", 1);
+            }
+        }
+        drop(lent);
+        drop(files);
+    }
+    report::distinct(report::hash_str(&format!("fe:{what}:{}", rng.0 % 64)));
+    judge(cfg, "frontend", J::S(what.clone()), &before, case, "");
+    report::sample(&what.chars().take(24).collect::<String>(), jo! {"endpoint" => "frontend", "scenario" => what});
+}
+
+/// Proxies are lent descriptors (`&dyn AsRawFd`): they must not close them.
+fn proxy_scenario(cfg: &Cfg, rng: &mut Rng, case: &str) {
+    let before = sys::fd_census();
+    {
+        let (a, peer) = sys::pair();
+        let b = Backend::from_stream(a);
+        b.set_shared_object_flag(true);
+        b.set_shmem_flag(true);
+        let ra = rng.chance(1, 2);
+        b.set_reply_ack_flag(ra);
+        let file = sys::memfd("lent", 4096);
+        let id = sys::ident(file.as_raw_fd());
+        for k in 0..5u64 {
+            let op = c01::rand_beop(rng, k);
+            if ra {
+                // ack with stray descriptors attached
+                let extra: Vec<std::fs::File> = (0..rng.below(3)).map(|_| sys::memfd("stray", 4096)).collect();
+                let fds: Vec<RawFd> = extra.iter().map(|x| x.as_raw_fd()).collect();
+                let _ = sys::send_all(peer.as_raw_fd(), &spec::msg(op.code(), F_VERSION1 | F_REPLY, &spec::p_u64(0)), &fds);
+            }
+            let _ = util::catch(|| op.exec(&b, &file));
+            if sys::ident(file.as_raw_fd()) != id {
+                report::violation(&format!("C09:backend-proxy:{}:lent-descriptor-closed", op.name()), J::Null, cfg.replay(case));
+            }
+            let mut d = sys::drain_nb(peer.as_raw_fd());
+            d.close_fds();
+        }
+        let (ga, gpeer) = sys::pair();
+        let g = GpuBackend::from_stream(ga);
+        for _ in 0..3 {
+            let _ = g.set_dmabuf_scanout(&VhostUserGpuDMABUFScanout::default(), Some(&file));
+            let _ = g.set_dmabuf_scanout2(&VhostUserGpuDMABUFScanout2::default(), Some(&file));
+            if sys::ident(file.as_raw_fd()) != id {
+                report::violation("C09:gpu-proxy:set_dmabuf_scanout:lent-descriptor-closed", J::Null, cfg.replay(case));
+            }
+        }
+        // a GPU reply with stray descriptors
+        let extra: Vec<std::fs::File> = (0..rng.range(1, 35)).map(|_| sys::memfd("stray", 4096)).collect();
+        let fds: Vec<RawFd> = extra.iter().map(|x| x.as_raw_fd()).collect();
+        let _ = sys::send_all(gpeer.as_raw_fd(), &spec::msg(gpu::GET_PROTOCOL_FEATURES, gpu::F_REPLY, &spec::p_u64(1)), &fds);
+        unsafe { libc::shutdown(gpeer.as_raw_fd(), libc::SHUT_WR) };
+        let _ = g.get_protocol_features();
+        let mut d = sys::drain_nb(gpeer.as_raw_fd());
+        d.close_fds();
+    }
+    report::distinct(report::hash_str(&format!("proxy:{}", rng.0 % 4096)));
+    judge(cfg, "proxies", J::S("backend proxy x5 requests + gpu proxy dmabuf scanouts + stray reply descriptors".into()), &before, case, "");
+}
+
+pub fn run(cfg: &Cfg) {
+    report::assume("test descriptors are memfds/eventfds/sockets whose identity is decidable ((st_dev, st_ino) + eventfd-id); the census is taken in a single-threaded process at points where every endpoint has been dropped");
+    let scen: [(&str, fn(&Cfg, &mut Rng, &str)); 4] = [("srv", srv_scenario), ("fesrv", fesrv_scenario), ("fe", fe_scenario), ("proxy", proxy_scenario)];
+    // warm-up: lazily created runtime descriptors must exist before the first baseline
+    {
+        let mut w = Rng::new(99);
+        for (_, f) in scen.iter() {
+            let before = report::violations_so_far();
+            let _ = before;
+            f(&Cfg { only: Some("warmup".into()), ..cfg.clone() }, &mut w, "warmup");
+        }
+    }
+    if let Some(o) = &cfg.only {
+        if let Some((name, st)) = o.split_once(':') {
+            if let (Some((_, f)), Ok(st)) = (scen.iter().find(|(n, _)| *n == name), st.parse::<u64>()) {
+                let mut r = common::Rng(st);
+                f(cfg, &mut r, o);
+            }
+        }
+        return;
+    }
+    let mut rng = Rng::new(cfg.seed.wrapping_mul(0xc09).wrapping_add(cfg.shard.wrapping_mul(15485863)));
+    let n = cfg.pick(1500, 20000);
+    for i in 0..n {
+        let (name, f) = scen[(i % 8).min(3) as usize % 4];
+        let (name, f) = if i % 8 < 4 { scen[0] } else if i % 8 < 6 { scen[1] } else if i % 8 == 6 { scen[2] } else { (name, f) };
+        let case = format!("{name}:{}", rng.0);
+        f(cfg, &mut rng, &case);
+        if report::violations_so_far() > 20 {
+            break;
+        }
+    }
 }
